@@ -1,17 +1,17 @@
 """C18 -- validated configurations are canonical, frozen and stable under re-validation.
 
-Correspondence: random valid configuration dictionaries (weights incl. zeros, scalar / vector / default
-bounds incl. infinities, masks, variable types, both perturbation types, all boundary types, linear and
-non-linear constraints, optimizer options, filters/estimators/samplers, with and without a
-VariableScaler in the validation context) and a malformed stream (wrong lengths, crossed bounds,
-non-positive weight sums, wrong coefficient columns, relative perturbations with infinite bounds, enum
-values out of range, zero perturbations).  The real `EnOptConfig.model_validate` result is compared
-field by field with Model/Config.v `validate` inside Coq; validating the object again, its
-`model_dump(round_trip=True)` and the JSON round trip of the dump is compared with the first result;
-a reachability sweep probes every pydantic model (setattr on each field) and every ndarray (in-place
-write) reachable from the validated objects; accepted assignments are compared with the flag map
-derived from the generated `_mutable()/_immutable()` table (Gen/Gen_C18.v, re-extracted fail-closed
-from the AST on every run).
+Correspondence: random valid configuration dictionaries (weights incl. zeros, a negative entry, the smallest accepted
+sum; scalar / vector / default bounds incl. infinities, masks, variable types, both perturbation types, all boundary
+types, linear and non-linear constraints, defaults, optimizer options, filters/estimators/samplers; with and without a
+VariableScaler, a non-linear constraint scaler and an objective scaler in the validation context), a full-precision
+stream, a stream without variables, and a malformed stream (wrong lengths, crossed bounds, non-positive or tiny weight
+sums, wrong / ragged coefficient columns, relative perturbations with infinite bounds, enum values out of range, zero
+perturbations / thresholds).  The real `EnOptConfig.model_validate` result is compared field by field with
+Model/Config.v `validate` inside Coq; validating the object again, its `model_dump(round_trip=True)` and the JSON round
+trip of the dump is compared with the first result; a reachability sweep probes every pydantic model (setattr on each
+field) and every ndarray (flags.writeable and an in-place write) reachable from the three validated objects; accepted
+assignments are compared with the flag map derived from the generated `_mutable()/_immutable()` table (Gen/Gen_C18.v,
+re-extracted fail-closed from the AST on every run together with the table of array stores and array converters).
 """
 from __future__ import annotations
 
@@ -31,23 +31,33 @@ SHARD_SIZE = 80
 PARALLEL = True
 CASE_TIMEOUT = 60
 EXHAUSTIVE = {"quick": False, "thorough": False}
-RULE = ("random valid configuration dictionaries: V <= 4 variables (few-bit dyadic values), bounds given as default / scalar / vector with "
-        "infinite entries, optional types and mask (scalar or vector), 1-3 objective and 1-4 realization weights incl. zeros, "
-        "realization_min_success / perturbation_min_success None, below and above the counts, magnitudes / perturbation types / boundary "
-        "types scalar or vector (both perturbation types, all boundary types), optional linear (1-3 rows) and non-linear (1-3) constraints with "
-        "scalar/vector bounds, optimizer options, filters / estimators / samplers tuples, and in 40 % of the cases a VariableScaler (scales "
-        "and/or offsets) as validation context; malformed stream: one corruption of a valid dictionary (array of a length that cannot be "
-        "broadcast, lower > upper, weight sum <= 0, wrong number of coefficient columns, relative perturbation with an infinite bound, enum "
-        "value out of range, zero perturbations, incompatible non-linear bound lengths). Non-trivial = the configuration was accepted and "
-        "has V >= 2 or a constraint section, or it was rejected by a corruption; distinct = distinct case dictionaries.")
+RULE = ("random valid configuration dictionaries: V in 1..6 variables (few-bit dyadic values; a scalar initial value for V = 1), bounds given as "
+        "default / scalar / one-element list / vector with infinite entries, optional types and mask (scalar or vector), 1-4 objective and 1-6 "
+        "realization weights incl. zeros, a single negative weight with a positive sum and the smallest accepted sum (2^-52), sections and "
+        "gradient fields left to their defaults, realization_min_success / perturbation_min_success None, below and above the counts, "
+        "magnitudes / perturbation types / boundary types scalar or vector (both perturbation types, all three boundary types), optional "
+        "linear constraints (1-4 rows, also as a flat coefficient list) and non-linear constraints (1-4) with scalar / vector / infinite "
+        "bounds and filter / estimator index arrays, optimizer options, filters / estimators / samplers tuples; validation context: a "
+        "VariableScaler (scales and/or offsets) in 40 %, a non-linear constraint scaler in 35 % of the cases with such constraints, an "
+        "objective scaler in 20 %; a stream with full 53-bit values (weights, bounds, magnitudes, scales); a stream without variables "
+        "(V = 0); malformed stream: 23 corruptions of a valid dictionary (per-variable / per-constraint arrays of a length that cannot be "
+        "broadcast, lower > upper in variable / linear / non-linear bounds also behind a scaler, weight sum zero, negative or positive but "
+        "below eps, wrong / ragged / missing coefficient columns, relative perturbation with an infinite bound, enum values out of range, "
+        "zero perturbations, zero threshold). Every accepted configuration is validated again as object, as model_dump(round_trip=True) "
+        "and as the JSON round trip of the dump, and all three objects are swept (setattr on every field of every reachable pydantic "
+        "model, flags.writeable and an in-place write on every reachable ndarray). Non-trivial = the configuration was accepted and has "
+        "V >= 2 or a constraint section, or it was rejected by a corruption; distinct = distinct case dictionaries.")
 ASSUMPTIONS = [
     "re-validation of a dump is done without a validation context (the external-optimizer hand-off); option dictionaries are user data and not probed",
-    "scales of the VariableScaler are positive and no linear-constraint row vanishes under it (the model returns Unsupported otherwise; never generated)",
-    "frozenness is a run-time fact about Python objects: the model carries it as the per-class _mutable()/_immutable() call sequences (generated) and the sweep observes it",
+    "scales of the VariableScaler and of the non-linear constraint scaler are positive and no linear-constraint row vanishes under the scaler (the model returns Unsupported otherwise; never generated)",
+    "ropt defines only abstract non-linear-constraint / objective transforms: the harness supplies a scaler dividing the bounds by positive scales and an objective scaler (which must have no effect on validation)",
+    "inputs are finite (NaN weights / bounds pass the code's comparisons and are outside the domain); array fields are given as scalars or flat lists (a 2-D initial_values array is accepted by Array1D and is outside the domain)",
+    "index arrays (realization_filters, function_estimators, samplers) are not broadcast by the code; they are covered by the frozenness sweep only",
+    "frozenness is a run-time fact about Python objects: the model carries it as the generated _mutable()/_immutable() call sequences and array-store sources, and the sweep observes it",
 ]
 TRUSTED = [
-    "pydantic's validator order (after-validators in definition order) and numpy's writeable flag semantics",
-    "the AST extraction of the _mutable()/_immutable() call table and of ImmutableBaseModel.__setattr__'s shape (fail-closed)",
+    "pydantic's validator order (after-validators in definition order), model_copy/model_construct semantics and numpy's writeable flag semantics (a broadcast view of a read-only array is read-only)",
+    "the AST extraction (fail-closed) of the _mutable()/_immutable() call table, of ImmutableBaseModel.__setattr__'s shape, of the shapes of immutable_array / normalize / broadcast_1d_array / broadcast_arrays, of the Array* converters and of every store into an array field",
 ]
 
 INF = float("inf")
@@ -732,7 +742,7 @@ def empty_case(rng):
 
 
 def gen_cases(tier, rng):
-    n_valid, n_precise, n_empty, n_bad = (1500, 120, 40, 30) if tier == "quick" else (26000, 2500, 300, 420)
+    n_valid, n_precise, n_empty, n_bad = (1500, 120, 40, 30) if tier == "quick" else (18000, 1500, 200, 300)
     for _ in range(n_valid):
         yield valid_case(rng)
     for _ in range(n_precise):
@@ -1152,6 +1162,16 @@ def oracle(case, obs):
             want = [(float(x) - o) / s for x, o, s in zip(_bcast(var.get(key, dflt), V), offs, scales)]
             if len(f[name]) != V or not all(near(x, y) for x, y in zip(f[name], want)):
                 return {"clause": "context-transform-applied", "detail": {name: f[name], "expected": want}}
+        # magnitudes: absolute ones in optimizer units, relative ones times the (finite) range in optimizer units, stored as absolute
+        pt = _bcast(g.get("perturbation_types", 1), V)
+        if "perturbation_magnitudes" in g and len(f["mags"]) == V and len(pt) == V:
+            mg = _bcast(g["perturbation_magnitudes"], V)
+            lo_b, up_b = _bcast(var.get("lower_bounds", -INF), V), _bcast(var.get("upper_bounds", INF), V)
+            want = [((u - l) * m if t == 2 else m) / s for t, m, l, u, s in zip(pt, mg, lo_b, up_b, scales)]
+            if not all(near(x, y) for x, y in zip(f["mags"], want)):
+                return {"clause": "perturbation-magnitudes", "detail": {"mags": f["mags"], "expected": want}}
+            if any(t != 1 for t in f["ptypes"]) and 2 in pt:
+                return {"clause": "relative-magnitudes-stored-as-absolute", "detail": {"ptypes": f["ptypes"]}}
     if f["nonlin"] is not None:
         nlc = cfg["nonlinear_constraints"]
         n = len(f["nonlin"]["lower"])
@@ -1242,21 +1262,42 @@ def search(rng, case):
 
 
 MANIFEST = {
-    "level_text": ("Machine-checked Coq proofs about the executable model of EnOptConfig validation (Model/Config.v: normalize, broadcasts, threshold "
-                   "clamps, VariablesConfig/GradientConfig.fix_perturbations/LinearConstraintsConfig.apply_transformation with an optional "
-                   "VariableScaler context): validated weights sum to one with ratios and zeros preserved and a sum below eps is rejected; "
-                   "per-variable and per-constraint arrays have full length and equal the scalar or the given vector; success thresholds are "
-                   "min(threshold, count); crossed bounds, wrong coefficient columns, non-broadcastable lengths and relative perturbations with "
-                   "infinite bounds are rejected; validating the dump of a validated configuration succeeds and yields an equivalent configuration "
-                   "(magnitudes not rescaled); every configuration class of the table generated from the source ends its validators immutable. "
-                   "Tied to the code on every run by an in-Coq field-by-field comparison with the real EnOptConfig.model_validate on random and "
-                   "malformed dictionaries, dump and JSON re-validation, and a reachability sweep of setattr / in-place writes."),
-    "level_note": ("Frozenness is PARTIAL: it is a run-time fact about Python objects; proved is the flag discipline of the generated "
-                   "_mutable()/_immutable() call table (finite fact re-proved against the current source on every run), array read-only flags "
-                   "are established only by the run-time sweep over the generated configurations. Modelled, not verified: pydantic's validator "
-                   "order and type coercions, numpy broadcasting; optimizer/sampler option dictionaries are user data and not covered; the "
-                   "VariableScaler is the only transform in the model (positive scales). Trusted: Coq kernel + VM, the AST translator, the "
-                   "Python driver. Reals are compared with tolerance (1e-12*S + 1e-9*|m|), discrete fields exactly."),
-    "technique": "Coq proof (monadic validation model over Q and extended reals, idempotence and canonical-form lemmas, generated flag table) + in-Coq differential correspondence + run-time reachability sweep",
+    "level_text": ("Machine-checked Coq proofs (Props/C18.v, 29 theorems, all closed under the global context, for every number of variables, "
+                   "objectives, realizations and constraints, by induction) about the executable model of EnOptConfig validation that the "
+                   "checker runs against the real code (Model/Config.v: normalize, broadcasts, threshold clamps, VariablesConfig, "
+                   "GradientConfig.fix_perturbations, LinearConstraintsConfig.apply_transformation, NonlinearConstraintsConfig, with an optional "
+                   "VariableScaler and non-linear constraint scaler as validation context). Canonical: C18_weights_canonical (validated weights "
+                   "have sum one, ratios, zeros and signs preserved), C18_weights_rejected / C18_nonpositive_weights_rejected (a sum below eps, "
+                   "in particular <= 0, is rejected), C18_broadcast (every per-variable / per-constraint array has full length), "
+                   "C18_broadcast_values (it is the given vector or the repeated scalar, bounds then mapped by the scaler), "
+                   "C18_perturbations_converted (relative magnitudes times the finite bound range, stored as ABSOLUTE), C18_clamped "
+                   "(thresholds = min(threshold, count)), C18_crossed_iff + C18_rejects_crossed_{variable,linear,nonlinear}_bounds, "
+                   "C18_rejects_bad_{variable,gradient,linear,nonlinear}_shapes, C18_rejects_relative_infinite, "
+                   "C18_rejects_bad_gradient_fields, and conversely C18_consistent_accepted (every consistent dictionary is accepted). Stable: "
+                   "C18_validated_canonical, C18_canonical_fixed_point, C18_idempotent (+ C18_idempotent_generated, C18_generated_enums_wf for the "
+                   "enumeration values of the current source): validating the dump of any validated configuration succeeds and yields the same "
+                   "configuration up to == on the weights, again canonical; C18_magnitudes_not_rescaled (fix 8967086: no stored type is RELATIVE, "
+                   "magnitudes and bounds are returned unchanged). Frozen (flag discipline): C18_flags_final_immutable, "
+                   "C18_arrays_stored_immutable, C18_array_types_converted (finite facts over tables regenerated from the source on every run), "
+                   "C18_flag_discipline / C18_last_mutable_not_frozen (the flag machine, all validator sequences). Tied to the code on every run by "
+                   "an in-Coq field-by-field comparison with the real EnOptConfig.model_validate on random, full-precision, empty and malformed "
+                   "dictionaries, re-validation of the object, its dump and the JSON round trip, and a reachability sweep of setattr / in-place "
+                   "writes on all three resulting objects."),
+    "level_note": ("Frozenness is PARTIAL: that objects and arrays reject mutation is a run-time fact about Python objects. Proved is the flag "
+                   "discipline of the generated tables (every class ends its validators with _immutable() on every path; every store into an "
+                   "array field stores the result of immutable_array / normalize / broadcast_1d_array / a broadcast view of an immutable array; "
+                   "every Array* type converts with immutable_array) and the general flag machine; that pydantic runs the validators in this "
+                   "order and numpy honours the flag is established only by the run-time sweep over the generated configurations (every "
+                   "reachable model: setattr on each field raises; every reachable ndarray: flags.writeable is False and an in-place write "
+                   "raises). No theorem is partial otherwise. Modelled, not verified: pydantic's field conversions and validator order, numpy "
+                   "broadcasting, the VariableScaler formulas (compared on every run); C18_consistent_accepted, C18_perturbations_converted are "
+                   "stated without a transform in the context, the rejection / canonical-form / idempotence theorems with any context. Out of "
+                   "the model: optimizer / sampler option dictionaries (user data), the index arrays realization_filters / function_estimators / "
+                   "samplers (not broadcast by the code; swept only), NaN inputs and 2-D arrays for 1-D fields (accepted by the code, outside "
+                   "the domain of valid dictionaries). Trusted: Coq kernel + VM, the AST translator, the Python driver. Reals are compared with "
+                   "tolerance (1e-12*S + 1e-9*|m|), discrete fields, shapes, flags and outcomes exactly."),
+    "technique": ("Coq proof (monadic validation model over Q and extended reals; canonical-form, rejection, completeness and fixed-point lemmas by "
+                  "list induction; generated flag and array-store tables discharged by computation) + in-Coq differential correspondence + "
+                  "run-time reachability sweep + independent Python oracle of the property clauses"),
     "design_ref": "DESIGN.md section 4, C18",
 }
